@@ -6,7 +6,7 @@
 (* insertion rank.  Paths are sequences of keys relative to the root map.      *)
 EXTENDS Integers, Sequences, FiniteSets
 
-CONSTANTS MaxNodes, Keys, Kinds, Prios, MaxSteps, Bounded
+CONSTANTS MaxNodes, Keys, Kinds, Prios, MaxSteps, Bounded, MaxPath
     \* Bounded: kinds that have an "oob" class (bounds / options / units)
 
 VARIABLES nodes, cnt, steps, op
@@ -99,7 +99,7 @@ Remove(path) ==
             /\ cnt' = cnt
             /\ op' = [a |-> "Remove", path |-> path, res |-> "ok", id |-> i]
 
-Paths == UNION {[1..k -> Keys] : k \in 1..2}
+Paths == UNION {[1..k -> Keys] : k \in 1..MaxPath}
 NewAny == \E kind \in Kinds, key \in Keys, par \in 1..cnt, d \in {"v1", "oob", "wrongtype"}, ro \in BOOLEAN, p \in Prios :
              New(kind, key, par, d, ro, p)
 SetAny == \E i \in 2..cnt, v \in {"v1", "v2", "oob", "wrongtype"} : SetValue(i, v)
